@@ -71,7 +71,7 @@ PROPS = {
                 pending=[]),
     'C08': dict(obligations=lambda: P('SqProps.C08') + P('SqProps.C08Rat') + T('SqTie.LexRules', 'lexrules_tie'),
                 slices=['num'], monitors=['c08'],
-                pending=['`**` and float() against ℚ (+ - * /, the comparisons, round(x, n) and round(x) are: arithmetic_is_correctly_rounded, comparisons_are_rational_order, round_to_places_is_nearest, round_to_integer_is_nearest in SqProps/C08Rat.lean)']),
+                pending=['float() against ℚ, and `**` outside the modelled part (inexact powers, fractional / negative / exponent-form exponents: correspondence with CPython only); + - * /, the comparisons, round(x, n), round(x) and exact `**` are theorems against ℚ in SqProps/C08Rat.lean']),
     'C09': dict(obligations=lambda: P('SqProps.C09') + P('SqProps.C09Den') + SHAPE_OPS,
                 slices=['probe'], monitors=['c09'],
                 pending=[]),
